@@ -25,6 +25,9 @@ pub enum KeyKind {
     /// the RSA-2048 material declared with a signature scheme the library does not implement;
     /// nobody can make a valid signature for this identity
     RsaUnknown,
+    /// an ECDSA public key built from its raw bytes (`PublicKey::from_ecdsa`): no keyid_hash_algorithms,
+    /// another key id than the PKCS#8 import of the same key; it never signs
+    EcdsaBare,
 }
 
 impl KeyKind {
@@ -112,7 +115,7 @@ fn ed_pk8(seed: u64) -> Vec<u8> {
 pub fn pkcs8_of(spec: KeySpec) -> Vec<u8> {
     match spec.kind {
         KeyKind::Ed | KeyKind::EdPk8 => ed_pk8(spec.seed),
-        KeyKind::Ecdsa => ecdsa_pk8(spec.seed),
+        KeyKind::Ecdsa | KeyKind::EcdsaBare => ecdsa_pk8(spec.seed),
         KeyKind::Rsa2048S256 | KeyKind::Rsa2048S512 | KeyKind::RsaUnknown => RSA2048.to_vec(),
         KeyKind::Rsa4096S256 | KeyKind::Rsa4096S512 => RSA4096.to_vec(),
     }
@@ -135,8 +138,12 @@ pub fn make_key(spec: KeySpec) -> Key {
         KeyKind::Rsa4096S256 => PrivateKey::from_pkcs8(RSA4096, SignatureScheme::RsaSsaPssSha256).expect("rsa"),
         KeyKind::Rsa4096S512 => PrivateKey::from_pkcs8(RSA4096, SignatureScheme::RsaSsaPssSha512).expect("rsa"),
         KeyKind::RsaUnknown => PrivateKey::from_pkcs8(RSA2048, SignatureScheme::RsaSsaPssSha256).expect("rsa"),
+        KeyKind::EcdsaBare => PrivateKey::from_pkcs8(&ecdsa_pk8(spec.seed), SignatureScheme::EcdsaP256Sha256).expect("ecdsa key"),
     };
     let mut public = private.public().clone();
+    if spec.kind == KeyKind::EcdsaBare {
+        public = PublicKey::from_ecdsa(public.as_bytes().to_vec()).expect("bare ecdsa key");
+    }
     if spec.kind == KeyKind::RsaUnknown {
         let spki = public.as_spki().expect("spki");
         public = PublicKey::from_spki(&spki, SignatureScheme::Unknown("rsassa-pss-sha384".into())).expect("unknown-scheme key");
